@@ -8,6 +8,8 @@ import os
 import shutil
 import tempfile
 
+import re
+
 import core
 import cxcommon as cx
 
@@ -22,6 +24,22 @@ STRS = ['a', '', ' ', 'été', '日本', 'q"t', "it's", 'back\\slash', 'new\nlin
         '\x1c', '\x0b', 'trailing  ', '\\d+', '^[A-Z]{2}\\-\\d+$', '^"$', "^'$", '\U0001f600']
 DATES = ['2020-01-02', '2020-01-02 03:04:05', '1999-12-31 23:59:59.500000', '2000-02-29T12:00:00', '2021/6/5',
          '2021-06-15 08:30:00.000001']
+DATE_LIKE = re.compile(r'^\d{4}[-/]\d{1,2}[-/]\d{1,2}')
+
+
+def gen_date(rng):
+    """a date bound as it may stand in a .tdda file: the fixed spellings, or a timestamp with any microsecond part"""
+    if rng.random() < 0.5:
+        return rng.choice(DATES)
+    return '%04d-%02d-%02d %02d:%02d:%02d.%06d' % (rng.choice([1999, 2000, 2021, 2038]), rng.randint(1, 12), rng.randint(1, 28),
+                                                     rng.randint(0, 23), rng.randint(0, 59), rng.randint(0, 59),
+                                                     rng.choice([rng.randrange(10 ** 6), rng.randrange(10 ** 6), 1001, 249, 999999]))
+
+
+def is_date_text(v):
+    return isinstance(v, str) and DATE_LIKE.match(v) is not None
+
+
 FLOATS = [0.1, 1e-17, 1.7976931348623157e308, 123456789.12345678, -0.0, 2.5, 1e22, 5e-324]
 
 
@@ -41,7 +59,7 @@ def gen_field(rng):
             d[k] = ftype if rng.random() < 0.8 else rng.sample(['int', 'real', 'bool', 'string', 'date'], 2)
         elif k in ('min', 'max'):
             if ftype == 'date':
-                v = rng.choice(DATES)
+                v = gen_date(rng)
             elif ftype == 'string':
                 v = rng.choice(STRS)
             elif ftype == 'real':
@@ -68,8 +86,7 @@ def gen_field(rng):
         d = dict(items)
     if ftype == 'date' and 'type' in d and d['type'] != 'date' and any(k in d for k in ('min', 'max')):
         d['type'] = 'date'
-    if any(isinstance(d.get(k), str) and d.get(k) in DATES or
-           (isinstance(d.get(k), dict) and d[k]['value'] in DATES) for k in ('min', 'max')):
+    if any(is_date_text(d.get(k)) or (isinstance(d.get(k), dict) and is_date_text(d[k]['value'])) for k in ('min', 'max')):
         d['type'] = 'date'
     return d
 
@@ -141,8 +158,15 @@ def canon_fields(cs):
     """constraint set as comparable data: field -> kind -> (repr of value, precision)"""
     out = {}
     for name, fc in cs.fields.items():
-        out[name] = {k: (repr(c.value), getattr(c, 'precision', None)) for k, c in fc.constraints.items()}
+        out[name] = {k: (repr(_instant(c.value)), getattr(c, 'precision', None)) for k, c in fc.constraints.items()}
     return out
+
+
+def _instant(v):
+    """a datetime.date bound and the midnight datetime it is read back as are the same value"""
+    if isinstance(v, dt.date) and not isinstance(v, dt.datetime):
+        return dt.datetime(v.year, v.month, v.day)
+    return v
 
 
 class C09(core.Prop):
@@ -377,6 +401,14 @@ class C09(core.Prop):
                     fail('text-differs', 'cycle %d: text changes after reload' % c, key)
                 if canon_fields(cs) != canon_fields(load_dict(json.loads(text))):
                     fail('path-vs-dict', 'loading by path and from the parsed dictionary give different constraints')
+                if c == 0 and canon_fields(cs) != canon_fields(cs0):
+                    # the constraints that come back from the file are the ones that were written: same kinds, same values
+                    a, b = canon_fields(cs0), canon_fields(cs)
+                    diffs = sorted({k for n in a for k in a[n] if b.get(n, {}).get(k) != a[n][k]} |
+                                   {k for n in b for k in b[n] if k not in a.get(n, {})})
+                    fail('values-differ', 'after write / load the constraints differ in %s: %r vs %r'
+                         % (diffs, {n: {k: a[n].get(k) for k in diffs if k in a[n]} for n in a},
+                            {n: {k: b.get(n, {}).get(k) for k in diffs} for n in b}), 'values-differ:' + ','.join(diffs))
                 text = text2
                 prev = cs
             # verdicts identical before / after a round trip
